@@ -1094,8 +1094,237 @@ fn renumber(text: &str) -> (String, usize, usize) {
     (out, loops.len(), closures.len())
 }
 
+// -------------------------------------------------------------------- call-site obligations (C17)
+
+struct SiteVisitor<'a> {
+    src: &'a str,
+    file: String,
+    fn_stack: Vec<String>,
+    consumed: BTreeSet<(usize, usize)>,
+    sites: Vec<Value>,
+    /// local variables bound directly to the result of a solve call: name -> the call
+    tracked: HashMap<String, ExprMethodCall>,
+}
+
+fn path_ident(e: &Expr) -> Option<String> {
+    if let Expr::Path(p) = strip_paren(e) {
+        return p.path.get_ident().map(|i| i.to_string());
+    }
+    None
+}
+
+fn is_solve_call(e: &Expr) -> Option<&ExprMethodCall> {
+    if let Expr::MethodCall(mc) = strip_paren(e) {
+        let n = mc.method.to_string();
+        if (n == "solve" && mc.args.is_empty()) || (n == "solve_under_assumptions" && mc.args.len() == 1) {
+            return Some(mc);
+        }
+    }
+    None
+}
+
+fn arm_diverges(e: &Expr) -> bool {
+    match e {
+        Expr::Macro(m) => {
+            let n = m.mac.path.segments.last().map(|s| s.ident.to_string()).unwrap_or_default();
+            n == "panic" || n == "unreachable" || n == "unimplemented"
+        }
+        Expr::Block(b) => match b.block.stmts.last() {
+            Some(Stmt::Expr(e, _)) => arm_diverges(e),
+            Some(Stmt::Macro(m)) => {
+                let n = m.mac.path.segments.last().map(|s| s.ident.to_string()).unwrap_or_default();
+                n == "panic" || n == "unreachable" || n == "unimplemented"
+            }
+            _ => false,
+        },
+        _ => false,
+    }
+}
+
+impl<'a> SiteVisitor<'a> {
+    fn match_verdict(&self, m: &ExprMatch) -> (&'static str, &'static str) {
+        // acceptable only if an explicit `SolvingResult::Unknown` arm diverges and no wildcard precedes it
+        let mut verdict = ("fail", "match on the SolvingResult without a diverging Unknown arm");
+        for arm in &m.arms {
+            let pt = norm(&self.src[rng(arm.pat.span()).0..rng(arm.pat.span()).1]);
+            if pt == "_" || (!pt.contains("::") && !pt.contains('(')) {
+                break;
+            }
+            if pt.ends_with("Unknown") {
+                if arm_diverges(&arm.body) {
+                    verdict = ("ok", "explicit Unknown arm diverges");
+                }
+                break;
+            }
+        }
+        verdict
+    }
+
+    fn flush_tracked(&mut self) {
+        let pending: Vec<ExprMethodCall> = self.tracked.drain().map(|(_, v)| v).collect();
+        for mc in pending {
+            self.record(&mc, "undecided", "SolvingResult bound to a local whose use this syntactic obligation cannot follow");
+        }
+    }
+
+    fn record(&mut self, mc: &ExprMethodCall, status: &str, why: &str) {
+        let (a, b) = rng(mc.span());
+        if self.consumed.contains(&(a, b)) {
+            return;
+        }
+        self.consumed.insert((a, b));
+        self.sites.push(json!({
+            "file": self.file, "line": line_of(self.src, rng(mc.method.span()).0),
+            "function": self.fn_stack.last().cloned().unwrap_or_default(),
+            "call": mc.method.to_string(), "status": status, "why": why,
+            "text": norm(&self.src[a..b]),
+        }));
+    }
+}
+
+impl<'a, 'ast> Visit<'ast> for SiteVisitor<'a> {
+    fn visit_item_mod(&mut self, m: &'ast ItemMod) {
+        // #[cfg(test)] modules are not part of the library
+        for a in &m.attrs {
+            if a.path().is_ident("cfg") {
+                let t = norm(&self.src[rng(a.span()).0..rng(a.span()).1]);
+                if t.contains("test") {
+                    return;
+                }
+            }
+        }
+        visit::visit_item_mod(self, m);
+    }
+    fn visit_impl_item_fn(&mut self, f: &'ast ImplItemFn) {
+        self.fn_stack.push(f.sig.ident.to_string());
+        visit::visit_impl_item_fn(self, f);
+        self.flush_tracked();
+        self.fn_stack.pop();
+    }
+    fn visit_item_fn(&mut self, f: &'ast ItemFn) {
+        self.fn_stack.push(f.sig.ident.to_string());
+        visit::visit_item_fn(self, f);
+        self.flush_tracked();
+        self.fn_stack.pop();
+    }
+    fn visit_trait_item_fn(&mut self, f: &'ast TraitItemFn) {
+        self.fn_stack.push(f.sig.ident.to_string());
+        visit::visit_trait_item_fn(self, f);
+        self.flush_tracked();
+        self.fn_stack.pop();
+    }
+    fn visit_local(&mut self, l: &'ast Local) {
+        if let (Pat::Ident(pi), Some(init)) = (&l.pat, &l.init) {
+            if init.diverge.is_none() {
+                if let Some(mc) = is_solve_call(&init.expr) {
+                    let (a, b) = rng(mc.span());
+                    self.tracked.insert(pi.ident.to_string(), mc.clone());
+                    // the receiver/arguments may contain further calls
+                    visit::visit_expr(self, &mc.receiver);
+                    for a in mc.args.iter() {
+                        visit::visit_expr(self, a);
+                    }
+                    let _ = (a, b);
+                    return;
+                }
+            }
+        }
+        visit::visit_local(self, l);
+    }
+    fn visit_expr(&mut self, e: &'ast Expr) {
+        match e {
+            Expr::MethodCall(mc) if mc.method == "unwrap_model" && mc.args.is_empty() => {
+                if let Some(inner) = is_solve_call(&mc.receiver) {
+                    self.record(inner, "ok", "result handed directly to unwrap_model()");
+                } else if let Some(x) = path_ident(&mc.receiver) {
+                    if let Some(inner) = self.tracked.remove(&x) {
+                        self.record(&inner, "ok", "result bound to a local that is handed to unwrap_model()");
+                    }
+                }
+            }
+            Expr::Match(m) => {
+                if let Some(inner) = is_solve_call(&m.expr) {
+                    let verdict = self.match_verdict(m);
+                    self.record(inner, verdict.0, verdict.1);
+                } else if let Some(x) = path_ident(&m.expr) {
+                    if let Some(inner) = self.tracked.remove(&x) {
+                        let verdict = self.match_verdict(m);
+                        self.record(&inner, verdict.0, verdict.1);
+                    }
+                }
+            }
+            Expr::Let(l) => {
+                if let Some(inner) = is_solve_call(&l.expr) {
+                    self.record(inner, "fail", "`if let`/`while let` on the SolvingResult: Unknown falls into the else branch");
+                } else if let Some(x) = path_ident(&l.expr) {
+                    if let Some(inner) = self.tracked.remove(&x) {
+                        self.record(&inner, "fail", "`if let`/`while let` on the SolvingResult: Unknown falls into the else branch");
+                    }
+                }
+            }
+            Expr::MethodCall(mc) => {
+                if is_solve_call(e).is_some() {
+                    // visited as a bare call below (parents that consume it were handled above)
+                } else if let Some(inner) = is_solve_call(&mc.receiver) {
+                    self.record(inner, "undecided", "SolvingResult consumed by a method other than unwrap_model()");
+                }
+            }
+            Expr::Macro(m) => {
+                let t = m.mac.tokens.to_string();
+                if count_ident(&t, "solve") + count_ident(&t, "solve_under_assumptions") > 0 {
+                    let (a, _) = rng(m.span());
+                    self.sites.push(json!({"file": self.file, "line": line_of(self.src, a),
+                        "function": self.fn_stack.last().cloned().unwrap_or_default(), "call": "macro",
+                        "status": "undecided", "why": "a macro body mentions solve", "text": norm(&t)}));
+                }
+            }
+            _ => {}
+        }
+        visit::visit_expr(self, e);
+        if let Some(mc) = is_solve_call(e) {
+            if let Expr::MethodCall(_) = e {
+                self.record(mc, "undecided", "SolvingResult flows somewhere this syntactic obligation cannot follow");
+            }
+        }
+    }
+}
+
+fn sites_main(args: &[String]) {
+    // vx sites <src_root> <out.json> <relative dirs...>
+    let root = &args[2];
+    let mut all = vec![];
+    let mut stack: Vec<std::path::PathBuf> = args[4..].iter().map(|d| std::path::Path::new(root).join(d)).collect();
+    let mut filesv = vec![];
+    while let Some(p) = stack.pop() {
+        if p.is_dir() {
+            for e in std::fs::read_dir(&p).unwrap() {
+                stack.push(e.unwrap().path());
+            }
+        } else if p.extension().map(|e| e == "rs").unwrap_or(false) {
+            filesv.push(p);
+        }
+    }
+    filesv.sort();
+    for p in filesv {
+        let text = std::fs::read_to_string(&p).unwrap();
+        let parsed = match syn::parse_file(&text) {
+            Ok(f) => f,
+            Err(e) => die(&format!("cannot parse {}: {}", p.display(), e)),
+        };
+        let rel = p.strip_prefix(root).unwrap().display().to_string();
+        let mut v = SiteVisitor { src: &text, file: rel, fn_stack: vec![], consumed: BTreeSet::new(), sites: vec![], tracked: HashMap::new() };
+        v.visit_file(&parsed);
+        all.extend(v.sites);
+    }
+    std::fs::write(&args[3], serde_json::to_string_pretty(&json!({"sites": all})).unwrap()).expect("write");
+}
+
 fn main() {
     let args: Vec<String> = std::env::args().collect();
+    if args.len() >= 5 && args[1] == "sites" {
+        sites_main(&args);
+        return;
+    }
     if args.len() != 3 {
         eprintln!("usage: vx <plan.json> <out.json>");
         std::process::exit(2);
